@@ -7,6 +7,11 @@ use std::{
 mod decoder;
 mod encoder;
 
+#[cfg(feature = "verif-hooks")]
+pub use decoder::VerifCDecoder;
+#[cfg(feature = "verif-hooks")]
+pub use encoder::VerifCEncoder;
+
 unsafe fn c_to_string(s: *const c_char) -> String {
     String::from_utf8_lossy(unsafe { CStr::from_ptr(s) }.to_bytes()).to_string()
 }
